@@ -537,6 +537,15 @@ def render_odd(rng, world, knobs):
 # generation of store-machine cases
 
 
+HEADER_TAIL = [
+    '##INFO=<ID=ZQ,Number=1,Type=Float,Description="declared, never used">',
+    '##FORMAT=<ID=ZF,Number=1,Type=Integer,Description="declared, never used">',
+    '##FILTER=<ID=zlow,Description="declared, never used">',
+    '##INFO=<ID=ZS,Number=.,Type=String,Description="declared, never used">',
+    '##FORMAT=<ID=ZG,Number=G,Type=Float,Description="declared, never used">',
+]
+
+
 def gen_store_case(rng, prop, tier):
     odd = prop == "C13" and rng.random() < 0.55
     if odd:
@@ -565,6 +574,8 @@ def gen_store_case(rng, prop, tier):
                 w["header"].append('##INFO=<ID=PS,Number=1,Type=Integer,Description="an INFO field that happens to be called PS">')
         n = rng.choice([1, 2, 3])
         ops = [({"op": "unphase", "stdin": True} if rng.random() < 0.2 else {"op": "unphase"}) for _ in range(n)]
+        if rng.random() < 0.35:
+            knobs["header_tail"] = w["header_tail"] = HEADER_TAIL[:rng.choice([1, 3, 5])]
         return {"machine": "store", "world": W.clean_world(w), "ops": ops, "knobs": knobs, "state0": []}
 
     w = W.gen_core(rng, first_base_variant=0.15, pos_coincidence=0.4)
@@ -664,6 +675,8 @@ def gen_store_case(rng, prop, tier):
         ops.append({"op": "unphase"})
     if prop == "C13" and rng.random() < 0.5:
         ops.append({"op": "unphase"})
+    if rng.random() < 0.25:
+        knobs["header_tail"] = w["header_tail"] = HEADER_TAIL[:rng.choice([1, 3, 5])]
     return {"machine": "store", "world": W.clean_world(w), "ops": ops, "knobs": knobs,
             "state0": sorted([list(k) + [v[0], list(v[1])] for k, v in state0.items()])}
 
